@@ -6,7 +6,7 @@
 (* exhaustively interleaved by TLC.  The sequential (big-step) semantics   *)
 (* of the same operations is RoundSeq.tla; the deviations of the code from *)
 (* the intended design are NAMED choices (LeakChoices, CapDecrChoices,     *)
-(* AtomicSetPhase).  The notarized-block list of C35 is RoundNB.tla.        *)
+(* SatChoices, AtomicSetPhase).  The notarized-block list is RoundNB.tla.  *)
 (***************************************************************************)
 EXTENDS RoundSeq
 
@@ -137,8 +137,10 @@ SRead(p) == Instr(p) = "sread" /\ Step(p) /\ SetRes(p, Str(Cardinality(DOMAIN sh
 \* ---- timeout counter (entity.go:102-187)
 AbsNow == [phase |-> phase, toc |-> toc, fin |-> fin, shares |-> shares, votes |-> votes, locked |-> FALSE, cap |-> Cap, thr |-> Thr]
 TSet(p)  == /\ Instr(p) = "tset" /\ Step(p)
-            /\ IF cur[p].v <= toc THEN SetRes(p, "false") /\ UNCHANGED toc
-                                  ELSE SetRes(p, "true") /\ toc' = cur[p].v
+            /\ \E sat \in SatChoices :
+                 LET v == SetTocValue(AbsNow, cur[p].v, sat) IN
+                 IF v <= toc THEN SetRes(p, "false") /\ UNCHANGED toc
+                             ELSE SetRes(p, "true") /\ toc' = v
             /\ UNCHANGED <<phase, fin, shares, votes, locks, cur, reg, left, racy, leaked>>
 TInc(p)  == /\ Instr(p) = "tinc" /\ Step(p)
             /\ \E n \in IncTocResults(AbsNow) : toc' = n
